@@ -41,12 +41,21 @@ type getterCall struct {
 var tieNames = []string{"id", "reverse-id", "seeded"}
 var asyncNames = []string{"sync", "promise", "mixed"}
 
+// How the getter represents an empty range: a non-nil empty slice, a typed nil slice (the usual
+// `var ret []T` with no appends — through a promise too), or — synchronous returns only — an
+// untyped nil (`return nil, nil`, which the adapter explicitly tolerates and the repo's own test
+// getter does). An untyped nil *through a promise* is not generated: the unchanged join callback
+// calls `reflect.ValueOf(nil).Len()`, which panics; nothing in the property covers it (noted in
+// design-notes/C16.md).
+var emptyNames = []string{"empty", "typed-nil", "untyped-nil"}
+
 // world is the application behind the time-based connection field. Its state is set per case.
 type world struct {
 	api   *apifu.API
 	D     []TEdge
 	tie   string // id | reverse-id | seeded
 	async string // sync | promise | mixed
+	empty string // empty | typed-nil | untyped-nil ("" = empty)
 	seed  uint64
 	calls []getterCall
 	tc    int
@@ -115,13 +124,17 @@ func newWorld() *world {
 			n := len(w.calls)
 			w.calls = append(w.calls, getterCall{nanosOf(minTime), nanosOf(maxTime), limit, reply, byId, inRange})
 			promise := w.async == "promise" || (w.async == "mixed" && (w.seed>>uint(n%8))&1 == 1)
+			result := reply // non-nil, possibly empty
+			if len(reply) == 0 && (w.empty == "typed-nil" || w.empty == "untyped-nil") {
+				result = nil // a typed nil slice
+			}
 			if promise {
-				return apifu.Go(ctx.Context, func() (any, error) { return reply, nil }), nil
+				return apifu.Go(ctx.Context, func() (any, error) { return result, nil }), nil
 			}
-			if len(reply) == 0 && w.seed&1 == 1 {
-				return nil, nil // a nil result is explicitly tolerated by the adapter
+			if len(reply) == 0 && w.empty == "untyped-nil" {
+				return nil, nil // explicitly tolerated by the adapter's synchronous path
 			}
-			return reply, nil
+			return result, nil
 		},
 		ResolveTotalCount: func(ctx graphql.FieldContext) (any, error) {
 			w.tc++
@@ -238,8 +251,8 @@ func (r TReq) build() (query string, vars map[string]any) {
 	return q, vars
 }
 
-func (w *world) serve(D []TEdge, tie, async string, seed uint64, r TReq) (o servedObs) {
-	w.D, w.tie, w.async, w.seed = D, tie, async, seed
+func (w *world) serve(D []TEdge, tie, async, empty string, seed uint64, r TReq) (o servedObs) {
+	w.D, w.tie, w.async, w.empty, w.seed = D, tie, async, empty, seed
 	w.calls, w.tc = nil, 0
 	query, vars := r.build()
 	body, _ := json.Marshal(map[string]any{"query": query, "variables": vars})
